@@ -99,7 +99,7 @@ func noPanic(text string, data func() any) string {
 // C03 (a): well-formed expressions with hostile integers on hostile Go data.
 func TestC03_Hostile(t *testing.T) {
 	c := collector("C03", "hostile")
-	rapid.Check(t, func(t *rapid.T) {
+	check(t, func(t *rapid.T) {
 		doc := gen.Doc(t, gen.DocCfg{MaxDepth: 3, MaxFan: 4})
 		cfg := gen.ExprCfg{MaxDepth: 2, MaxSteps: 4, Funcs: true, Let: true, Arith: true, Compare: true, HostileInt: true}
 		g := &gen.G{T: t, Root: doc, Cfg: cfg}
@@ -213,7 +213,7 @@ var c03FixedData = run.Node{T: "object", K: []string{"foo", "a", "b", "s", "n", 
 // reach code paths that mixed operands never do).
 func TestC03_Pairs(t *testing.T) {
 	c := collector("C03", "pairs")
-	rapid.Check(t, func(t *rapid.T) {
+	check(t, func(t *rapid.T) {
 		pickLeaf := func(label string) run.Node {
 			if rapid.IntRange(0, 2).Draw(t, label+"-foreign") == 0 {
 				return run.Node{T: gen.Pick(t, label, run.ForeignKinds)}
@@ -273,7 +273,9 @@ func TestC03_Pairs(t *testing.T) {
 			return
 		}
 		c.Label("ok")
-		c.NonTrivial(text+"\x00"+node.Text()+p.T+p.S+q.T+q.S, func() any { return map[string]any{"expr": text, "p": p.T + ":" + p.S, "q": q.T + ":" + q.S, "data": truncate(node.Text(), 200)} })
+		c.NonTrivial(text+"\x00"+node.Text()+p.T+p.S+q.T+q.S, func() any {
+			return map[string]any{"expr": text, "p": p.T + ":" + p.S, "q": q.T + ":" + q.S, "data": truncate(node.Text(), 200)}
+		})
 	})
 }
 
@@ -281,7 +283,7 @@ func TestC03_Pairs(t *testing.T) {
 func TestC03_Bytes(t *testing.T) {
 	c := collector("C03", "bytes")
 	corpus := loadCorpusExprs(t)
-	rapid.Check(t, func(t *rapid.T) {
+	check(t, func(t *rapid.T) {
 		var text string
 		kind := rapid.IntRange(0, 5).Draw(t, "kind")
 		switch kind {
